@@ -1519,7 +1519,15 @@ Definition judge_prog (p : prog) (o : obs8) : sx :=
               | Some id => v_kf id
               | None => v_bad "unclassified-defect" (Qx (render tc))
               end)
-      else v_bad "text-differs-from-model" (Qx (render (if existsb is_panic ti then tc else ti)))
+      else
+        (* inside a lexical-clash class the real grammar may already read the SOURCE as another tree than p (one-line
+           table rows: `| b :red |` is a record); the claim "this text denotes p" is then void; the real round trip
+           was still observed and must have held *)
+        match lex_class_of p with
+        | Some _ => if all_good ob then v_adv "lexical-clash-source-reads-differently"
+                    else v_bad "text-differs-from-model" (Qx (render (if existsb is_panic ti then tc else ti)))
+        | None => v_bad "text-differs-from-model" (Qx (render (if existsb is_panic ti then tc else ti)))
+        end
   end.
 
 (* ---- comparison (2) only: any program; the class is decided from the features of the implementation's own tree *)
@@ -1558,7 +1566,8 @@ Definition diff_classes : list (string * list string * list string) :=
     ("md-raw-hyperlink", ["raw-hyperlink"], ["perr"; "tree"]);
     ("md-figure-table", ["FigureTable"], ["perr"; "tree"]);
     ("md-inline-code-escape", ["inline-code-special"], ["perr"; "tree"; "idem"]);
-    ("comma-swizzle", ["comma-swizzle"], ["tree"; "perr"]) ].
+    ("comma-swizzle", ["comma-swizzle"], ["tree"; "perr"]);
+    ("md-escape-dropped", ["md-escape"], ["perr"; "tree"; "idem"]) ].
 
 (* every class whose features and symptom match: a document can combine elements of several classes and only the
    symptom says that one of them failed, not which; the driver accepts the verdict when one of the ids is listed *)
